@@ -25,6 +25,8 @@ def main(argv):
         tier = argv[argv.index("--tier") + 1]
     if tier not in ("quick", "thorough"):
         tier = "quick"
+    if tier == "thorough":
+        os.environ["HOOT_DEEP"] = "1"
     ent = REGISTRY[pid]
     rules = []
     for modname in ent["modules"]:
